@@ -64,6 +64,54 @@ def _locals_of(fn):
     return names
 
 
+def _path_has_attribute(n):
+    """the access path of a store target / receiver goes through an attribute (x.a, x.a[i], x.a.b), not only subscripts of a name"""
+    while isinstance(n, (ast.Attribute, ast.Subscript, ast.Call)):
+        if isinstance(n, ast.Attribute):
+            return True
+        n = n.func if isinstance(n, ast.Call) else n.value
+    return False
+
+
+def _fresh_locals(mod, fn, containers=False):
+    """locals of fn every assignment of which is a call of a class of the module (an object built here); with containers also
+    list / dict / set displays, comprehensions and list() / dict() / set() calls"""
+    params = {a.arg for a in fn.args.args + fn.args.kwonlyargs}
+    asg = {}
+    for n in core.walk_own(fn):
+        if isinstance(n, ast.Assign):
+            for t in n.targets:
+                for x in ast.walk(t):
+                    if isinstance(x, ast.Name) and isinstance(x.ctx, ast.Store):
+                        asg.setdefault(x.id, []).append(n.value if t is x else None)
+        elif isinstance(n, (ast.For, ast.comprehension)):
+            for x in ast.walk(n.target):
+                if isinstance(x, ast.Name):
+                    asg.setdefault(x.id, []).append(None)
+        elif isinstance(n, (ast.AugAssign, ast.AnnAssign, ast.NamedExpr)) and isinstance(n.target, ast.Name):
+            asg.setdefault(n.target.id, []).append(None)
+        elif isinstance(n, ast.withitem) and n.optional_vars is not None:
+            for x in ast.walk(n.optional_vars):
+                if isinstance(x, ast.Name):
+                    asg.setdefault(x.id, []).append(None)
+    out = set()
+    for nm, vals in asg.items():
+        if nm in params:
+            continue
+        def is_fresh(v):
+            if v is None:
+                return False
+            if isinstance(v, ast.Call) and isinstance(v.func, ast.Name) and v.func.id in mod.classes:
+                return True
+            if containers and (isinstance(v, (ast.List, ast.Dict, ast.Set, ast.ListComp, ast.DictComp, ast.SetComp))
+                               or (isinstance(v, ast.Call) and isinstance(v.func, ast.Name) and v.func.id in ('list', 'dict', 'set', 'sorted'))):
+                return True
+            return False
+        if all(is_fresh(v) for v in vals):
+            out.add(nm)
+    return out
+
+
 def _base_name(n):
     while isinstance(n, (ast.Attribute, ast.Subscript, ast.Call)):
         n = n.func if isinstance(n, ast.Call) else n.value
@@ -140,6 +188,29 @@ def frame_obligations(rep, modules=MODULES):
                     mutable_defaults.append((q, fn, d))
             rep.add_checked('%s.%s.frame.writes_only_self_and_locals' % (m, q), not probs, '; '.join(probs), 'ast',
                             function='%s.%s' % (m, q), witness=probs or None)
+            if m == 'engine':
+                # terms, atoms and answers may be handed from one engine to another by the caller: engine code writes no attribute of
+                # an object other than self (binding cells are written by Variable.unify on self) - except objects it has just built
+                fresh = _fresh_locals(mod, fn)
+                probs = []
+                for n in core.walk_own(fn):
+                    tgt = None
+                    if isinstance(n, (ast.Attribute, ast.Subscript)) and isinstance(n.ctx, (ast.Store, ast.Del)):
+                        tgt = n
+                    elif isinstance(n, ast.Call) and isinstance(n.func, ast.Attribute) and n.func.attr in MUTATORS:
+                        tgt = n.func.value
+                    elif isinstance(n, ast.Call) and isinstance(n.func, ast.Name) and n.func.id in ('setattr', 'delattr') and n.args:
+                        if not (isinstance(n.args[0], ast.Name) and n.args[0].id in fresh | {'self'}):
+                            probs.append('line %d: %s' % (n.lineno, ast.unparse(n)[:60]))
+                        continue
+                    if tgt is None or not _path_has_attribute(tgt):
+                        continue
+                    b = _base_name(tgt)
+                    if b == 'self' or b in fresh:
+                        continue
+                    probs.append('line %d: write through an attribute of %s: %s' % (n.lineno, b, ast.unparse(tgt)[:50]))
+                rep.add_checked('%s.%s.frame.no_write_to_attribute_of_foreign_object' % (m, q), not probs, '; '.join(probs), 'ast',
+                                function='%s.%s' % (m, q), witness=probs or None)
         # mutable module objects and mutable defaults are never mutated anywhere
         for nm in mutable_globals:
             probs = _mutations_of_name(mod, nm)
@@ -257,6 +328,9 @@ def fresh_state_obligations(rep):
 # ---------------------------------------------------------------------------------------------
 NONDET_CALLS = {'set', 'frozenset', 'hash', 'id', 'vars', 'dir', 'globals', 'locals'}
 NONDET_MODULES = {'random', 'time', 'datetime', 'uuid', 'secrets', 'os', 'socket', 'threading', 'tempfile'}
+PURE_MODULES = {'sys', 'antlr4', 'contextlib', 'click', 'itertools', 'functools', 're', 'typing', 'collections', 'dataclasses', 'abc', 'enum',
+                'string', 'operator', 'textwrap', 'io', 'codecs', 'keyword', 'logging', 'warnings', '__future__', 'unicodedata', 'numbers',
+                'types', 'copy'}
 
 
 def io_obligations(rep):
@@ -314,7 +388,22 @@ def determinism_obligations(rep, modules=('yp_generator', 'yp_prolog_visitor', '
                             'decorated with ' + ', '.join(bad) if bad else '', 'ast', function='%s.%s' % (m, q), witness=bad or None)
         imports = [a.name for s in mod.tree.body if isinstance(s, ast.Import) for a in s.names] + \
                   [s.module for s in mod.tree.body if isinstance(s, ast.ImportFrom) and s.module]
-        bad = [i for i in imports if i.split('.')[0] in NONDET_MODULES - {'os'}]
+        # only modules whose functions are functions of their arguments (no cache that outlives a compilation, no clock, no file
+        # system or environment lookups) are imported by the compile path; antlr4 and click are assumed (A-EXT-ANTLR, A-EXT-CLICK)
+        bad = [i for i in imports if i.split('.')[0] not in PURE_MODULES and i.split('.')[0] != 'yldprolog'
+               and not any(isinstance(s_, ast.ImportFrom) and s_.level > 0 and s_.module == i for s_ in mod.tree.body)]
+        for q, fn in mod.functions.items():
+            for n in core.walk_own(fn):
+                if isinstance(n, ast.Attribute) and isinstance(n.value, ast.Name) and n.value.id == 'sys' \
+                        and n.attr not in ('stdout', 'stderr', 'stdin', 'exit'):
+                    bad.append('%s line %d: %s' % (q, n.lineno, ast.unparse(n)))
+                if isinstance(n, (ast.Import, ast.ImportFrom)):
+                    for i in ([a.name for a in n.names] if isinstance(n, ast.Import) else [n.module or '']):
+                        if i.split('.')[0] not in PURE_MODULES and not (isinstance(n, ast.ImportFrom) and n.level > 0):
+                            bad.append('%s line %d: import %s' % (q, n.lineno, i))
+                if isinstance(n, ast.Call) and isinstance(n.func, ast.Name) and n.func.id in ('__import__', 'eval', 'exec', 'open', 'input') \
+                        and not (m == 'compiler' and n.func.id == 'open'):
+                    bad.append('%s line %d: %s(...)' % (q, n.lineno, n.func.id))
         rep.add_checked('%s.<module>.deterministic.imports' % m, not bad, ', '.join(bad), 'ast', function=m + '.<module>', witness=bad or None)
     io_obligations(rep)
     # the caller's options object outlives the call ("after any other compilations in the same process" with the same, reused
@@ -644,9 +733,66 @@ def debug_noninterference_obligations(rep):
                     ok_write = True
     if not ok_write:
         probs.append('main does not write the code of every source in order')
+    # ... to standard output or to the file named with -o: the object written to is bound by `with <opener>(<parameter>) as X`
+    # where the opener hands out only sys.stdout or open(<its parameter>, 'w'), whatever else is true of the file system
+    if fn is not None:
+        params = {a.arg for a in fn.args.args + fn.args.kwonlyargs}
+        sinks = {ast.unparse(n.func.value) for n in ast.walk(fn) if isinstance(n, ast.Call) and isinstance(n.func, ast.Attribute)
+                 and n.func.attr == 'write' and len(n.args) == 1}
+        bound = {}
+        for w in [n for n in ast.walk(fn) if isinstance(n, ast.With)]:
+            for it in w.items:
+                if isinstance(it.optional_vars, ast.Name):
+                    bound[it.optional_vars.id] = it.context_expr
+        for sname in sorted(sinks):
+            ce = bound.get(sname)
+            if ce is None or not isinstance(ce, ast.Call) or not ce.args or not (isinstance(ce.args[0], ast.Name) and ce.args[0].id in params):
+                probs.append('the stream written to (%s) is not opened from a command-line parameter by a with statement' % sname)
+                continue
+            why = _opener_problems(mod, ce)
+            if why:
+                probs.append('output stream %s: %s' % (sname, why))
     if fn is not None and any(isinstance(n, ast.Name) and n.id == 'source' and isinstance(n.ctx, (ast.Store, ast.Del)) for n in ast.walk(fn)):
         probs.append('main rebinds its `source` argument: the sources compiled are not the ones given, in the order given')
     rep.add_checked('compiler.main.cli_equals_library', not probs, '; '.join(probs), 'ast', function='compiler.main', witness=probs or None)
+
+
+def _is_open_w(v, pname):
+    if not (isinstance(v, ast.Call) and ast.unparse(v.func) in ('open', 'io.open') and v.args and isinstance(v.args[0], ast.Name)
+            and v.args[0].id == pname):
+        return False
+    mode = v.args[1] if len(v.args) > 1 else {k.arg: k.value for k in v.keywords}.get('mode')
+    return isinstance(mode, ast.Constant) and mode.value == 'w'
+
+
+def _opener_problems(mod, call):
+    """the context expression of the with statement that binds the output stream: open(<param>, 'w') itself, or a generator-based
+    context manager of the module whose yielded value is, on every path, sys.stdout or open(<its first parameter>, 'w')"""
+    f = ast.unparse(call.func)
+    if f in ('open', 'io.open'):
+        return '' if _is_open_w(call, call.args[0].id) else 'not opened for (over)writing'
+    fn = mod.functions.get(f)
+    if fn is None:
+        return 'opened by %s, which is not a function of the module' % f
+    if not fn.args.args:
+        return '%s has no parameter' % f
+    pname = fn.args.args[0].arg
+    yields = [n for n in core.walk_own(fn) if isinstance(n, ast.Yield)]
+    if not yields:
+        return '%s yields nothing' % f
+    for y in yields:
+        v = y.value
+        if isinstance(v, ast.Name):
+            vals = [a.value for a in core.walk_own(fn) if isinstance(a, ast.Assign) and any(isinstance(t, ast.Name) and t.id == v.id for t in a.targets)]
+            others = [n for n in core.walk_own(fn) if isinstance(n, ast.Name) and n.id == v.id and isinstance(n.ctx, ast.Store)]
+            if len(others) != len(vals) or not vals:
+                return '%s: the yielded stream %s is bound other than by plain assignments' % (f, v.id)
+        else:
+            vals = [v]
+        for x in vals:
+            if not (x is not None and (ast.unparse(x) == 'sys.stdout' or _is_open_w(x, pname))):
+                return '%s may hand out %s (line %d): neither sys.stdout nor open(%s, \'w\')' % (f, ast.unparse(x)[:40] if x is not None else 'None', y.lineno if x is None else x.lineno, pname)
+    return ''
 
 
 # ---------------------------------------------------------------------------------------------
